@@ -111,6 +111,9 @@ class Ctx:
                 for l in err.split("\n"):
                     if "ERROR: AddressSanitizer" in l or "runtime error" in l or "Assertion" in l or "LeakSanitizer" in l:
                         summ = l.strip()[:200]; break
+                for l in err.split("\n"):
+                    if l.startswith("SUMMARY:"):
+                        summ += " | " + l.strip()[:200]; break
                 outs[lo] = "CRASH " + summ
                 return
             # the driver printed `len(out)` complete lines before dying
